@@ -63,6 +63,16 @@ SUMMARY = {
  "C18-g": "UpdateCredentials ignores restore credentials that expire earlier than the ones held",
  "C19-g": "Exec sets WaitDelay: a process that exits 0 while a child keeps its output open is reported with exit status 1",
  "C20-g": "error-type pattern hoisted into a package regexp with [A-z] instead of [a-zA-Z]: types with [ \\ ] ^ _ ` pass",
+ "C01-h": "RegistrationService.Clear no longer re-arms cancelOnce: flows can be cancelled once per emulator instance, the second timeout / crash hangs forever",
+ "C02-h": "a refused submission (400) still calls runtime.ResponseSent(): a stale /error delivered after the next dispatch opens that invocation's response barrier, its own /response panics (ErrGateIntegrity)",
+ "C03-h": "ListExternalAgentPaths skips dot-named entries: such an extension is neither launched nor awaited",
+ "C04-h": "HasActiveExtensions ignores Running extensions: the invocation completes while every INVOKE subscriber is still busy",
+ "C08-h": "completion record of a failed invocation stamped with the *current* invoke id: produced after the timeout reset it is empty and the next invocation takes it for its own",
+ "C10-h": "front end: initMutex guards only the flag, not InitHandler: a second first-ever caller re-initialises the live sandbox",
+ "C12-h": "Runtime.Release dropped unless the runtime is parked: an invocation arriving while the runtime is busy with its restore hook is never delivered to the following next",
+ "C17-h": "streaming copy cut at the default payload limit + 1 instead of the per-request limit + 1",
+ "C18-h": "init/error in the Restoring state builds the restore error from the raw header (sanitising skipped)",
+ "C19-h": "kill() reports the ESRCH of its fallback signal: a Kill racing a natural exit whose output is still draining fails instead of succeeding",
  "C04-e": "AwaitRuntimeReady of the invoke flow waits on the response gate: the invocation completes before the runtime asked for next",
  "C11-e": "a cancelled gate whose count is met returns success from AwaitGateCondition",
  "C13-e": "event validation of register only looks at the last element: an illegal event before a legal one registers a ghost / wrong error type",
